@@ -4197,6 +4197,7 @@ class EntityMeta(type):
         attr_offsets = {}
         used_columns = set()
         for attr in chain(entity._attrs_with_columns_, entity._subclass_attrs_):
+            if not attr.columns: continue  # one-to-one attribute of subclass which has no column of its own
             offsets = []
             for column in attr.columns:
                 try: offset = col_names.index(column.upper())
